@@ -34,6 +34,12 @@ case "$cmd" in
           ( cd "$S/engines/zv" && CARGO_TARGET_DIR="$S/target/zv-$c" cargo build --release --offline --features "$F" 2>&1 | grep -E "^error" -A 12 || true )
           bins="$bins$c=$S/target/zv-$c/release/zv,"
         done
+        if [ "$id" = C10 ]; then
+          # the GUID part of C10 runs in the zb crate and is merged by zv
+          ( cd "$S/engines/zb" && cargo build --release --offline --bin zb 2>&1 | grep -E "^error" -A 12 || true )
+          "$S/target/zb/release/zb" C10G "$@" || exit 2
+          export C10_GUID_PART="$S/out/.run/C10-guid-part.json"
+        fi
         ZV_BINS="$bins" "$S/target/zv-gv/release/zv" "$id" "$@"
         ;;
       *)
